@@ -73,6 +73,29 @@ Proof.
   destruct (c_attempts cfg); auto. apply loop_sched_irrelevant.
 Qed.
 
+(* the loop looks at two fields of the configuration only — in particular not at the context's cause *)
+Lemma loop_cfg_ext : forall cfg1 cfg2 script,
+  c_retry_ctx_err cfg1 = c_retry_ctx_err cfg2 -> c_ck cfg1 = c_ck cfg2 ->
+  forall rem k done tr sched, loop cfg1 script rem k done tr sched = loop cfg2 script rem k done tr sched.
+Proof.
+  intros cfg1 cfg2 script E1 E2 rem; induction rem as [|rem IH]; intros k done tr sched; simpl; rewrite E1, E2.
+  - reflexivity.
+  - destruct done.
+    + destruct (c_retry_ctx_err cfg2); simpl; [|reflexivity].
+      destruct sched as [|[|] s]; try reflexivity. apply IH.
+    + destruct (a_out (nth k script default_attempt)); try reflexivity.
+      destruct (a_ctx_ends_in (nth k script default_attempt) || a_ctx_ends_in_wait (nth k script default_attempt)).
+      * destruct sched as [|[|] s]; try reflexivity. apply IH.
+      * apply IH.
+Qed.
+
+Lemma run_cause_irrelevant : forall cfg c ctx0 script sched,
+  run (with_cause cfg c) ctx0 script sched = run cfg ctx0 script sched.
+Proof.
+  intros. unfold run. simpl. destruct (negb (c_enabled cfg)); auto. destruct ctx0; auto.
+  destruct (c_attempts cfg); auto. now apply loop_cfg_ext.
+Qed.
+
 (* the property, on the result of [run] *)
 Definition att (script : list attempt) (i : nat) : attempt := nth i script default_attempt.
 
